@@ -210,6 +210,15 @@ class RecordingTx:
         self.log.append((query_name or 'just_execute', [tuple(args or ())]))
 
 
+class FakeIncomplete(Exception):
+    """the handler asked the fake database for something it does not model (=> INCONCLUSIVE, never a verdict)"""
+
+
+class _Record(dict):
+    def __missing__(self, key):
+        raise FakeIncomplete(f'batch_updates lookup: column {key!r} is not modelled by the fake database')
+
+
 class FakeDB:
     """What `_create_jobs` needs from gear.Database: the batch_updates lookup and a transaction whose
     INSERTs are recorded instead of executed.  No SQL is interpreted here (the SQL-backed properties
@@ -223,8 +232,9 @@ class FakeDB:
 
     async def select_and_fetchone(self, sql, args=None, query_name=None):
         assert 'FROM batch_updates' in sql, sql
-        return {'state': 'running', 'format_version': self.format_version, 'committed': False,
-                'start_job_id': self.update_start_job_id, 'start_job_group_id': self.update_start_job_group_id}
+        return _Record({'state': 'running', 'format_version': self.format_version, 'committed': False,
+                        'start_job_id': self.update_start_job_id, 'start_job_group_id': self.update_start_job_group_id,
+                        'update_n_jobs': 10**6, 'n_jobs': 10**6})
 
     def start(self, read_only=False):
         db = self
@@ -274,6 +284,10 @@ class CreateJobsDriver:
             self.loop.run_until_complete(self.fe._create_jobs(userdata, job_specs, 7001, update_id, self.app))
         except web.HTTPException as e:
             return ('http', e.status, e.reason)
+        except FakeIncomplete as e:
+            from vf.harness import Inconclusive
+
+            raise Inconclusive(str(e)) from e
         except Exception as e:  # noqa: BLE001
             return ('error', e)
         jobs = [rows for name, rows in self.db.log if name == 'insert_jobs']
